@@ -112,6 +112,11 @@ def simulate(prog, stop_on_exception=True):
         st.excluding1 = h.state.excluding
         pos = h.state.position
         st.T1 = (pos.X_AXIS.current, pos.Y_AXIS.current, pos.Z_AXIS.current, pos.E_AXIS.current)   # what the filter tracks (native)
+        st.FR1 = h.state.feedRate                        # the feed rate the filter tracks (mm/min)
+        try:
+            st.EL1 = pos.E_AXIS.nativeToLogical()       # the logical E value the filter tracks (what a generated E word is meant to carry)
+        except Exception:
+            st.EL1 = None
         st.tested = tested_points(st.U0, st.U1, ev[1]) if ev[0] == 'cmd' else None
         steps.append(st)
         if st.exc is not None and stop_on_exception:
